@@ -8,6 +8,7 @@ import Mrpro.Model.PowerIter
 import Mrpro.Model.Signal
 import Mrpro.Model.Resample
 import Mrpro.Model.Rotation
+import Mrpro.Model.Load
 open Lean M M.Proto
 
 def getTrajComp (j : Json) (k : String) : Except String TrajComp := do
@@ -322,6 +323,20 @@ def handle (j : Json) : Except String Json := do
   | "pow_flag" =>
       let n ← getInt j "n"; let b ← getBool j "improper"
       pure (Json.mkObj [("flag", Json.bool (powFlag n b)), ("xor", Json.bool (xorN n.natAbs b))])
+  | "load" =>
+      let arr ← j.getObjValAs? (Array Json) "acqs"
+      let acqs ← arr.toList.mapM (fun a => do
+        let key ← getNats a "key"; let flags ← getNat a "flags"; let id ← getNat a "id"
+        pure ({ key := key, flags := flags, id := id } : Acq))
+      let useFilter ← getBool j "filter"
+      let kept := if useFilter then acqs.filter (fun a => isImage a.flags) else acqs
+      let ordered := loadOrder kept
+      let (nk2, nk1) := shapeK kept
+      pure (Json.mkObj [("order", natsJson (ordered.map (·.id))), ("n_k2", Json.num (JsonNumber.fromNat nk2)), ("n_k1", Json.num (JsonNumber.fromNat nk1)),
+                        ("ignore_mask", Json.num (JsonNumber.fromNat ignoreMask))])
+  | "kfreq" =>
+      let n ← getNat j "n"; let c ← getInt j "center"; let rev ← getBool j "reversed"
+      pure (Json.mkObj [("k", intsJson ((List.range n).map (kfreq n c rev)))])
   | "norm_dims" =>
       let ndim ← getNat j "ndim"; let dims ← getInts j "dims"
       pure (match dims.mapM (normIndex ndim) with
